@@ -33,7 +33,10 @@ type Thread struct {
 	wake   chan struct{}
 	status int // 0 unused, 1 live, 2 done
 	// can is the enabledness predicate of the operation the thread is parked at (nil = enabled).
-	can   func() bool
+	// It is an interface over small structs with //go:norace methods, never a closure: closures are
+	// instrumented by the race detector even inside //go:norace functions, and a predicate is
+	// evaluated by whichever thread happens to run the scheduler.
+	can   Waiter
 	what  string // description of the pending operation (for deadlock reports)
 	steps int
 	Panic string // recovered panic of the thread body, if any
@@ -85,9 +88,19 @@ type Exec struct {
 	ntrace    int
 	QuickMode bool // drop scheduling points before pure releases
 	objSeq    int
+	stamp     int
 }
 
 var theExec Exec
+
+// Waiter is the enabledness predicate of a pending operation. Implementations must be //go:norace.
+type Waiter interface{ Ready() bool }
+
+// Never is the predicate of an operation that blocks forever.
+type Never struct{}
+
+//go:norace
+func (Never) Ready() bool { return false }
 
 // X is the running execution; nil means pass-through mode (every shim forwards to the real primitive).
 var X *Exec
@@ -177,7 +190,7 @@ func (x *Exec) enabled(t *Thread) bool {
 	if t.status != 1 {
 		return false
 	}
-	return t.can == nil || t.can()
+	return t.can == nil || t.can.Ready()
 }
 
 // pick chooses the next thread among the enabled ones; -1 if none.
@@ -295,6 +308,17 @@ func (x *Exec) exit(t *Thread) {
 	if x.aborting {
 		return
 	}
+	// the execution ends as soon as every non-daemon thread has finished
+	live := false
+	for i := 0; i < x.nthr; i++ {
+		if x.threads[i].status == 1 && !x.threads[i].Daemon {
+			live = true
+		}
+	}
+	if !live {
+		x.finish()
+		return
+	}
 	for {
 		next := x.pick()
 		if next < 0 {
@@ -333,7 +357,7 @@ func Sched(what string) {
 // continues only when can() holds (evaluated by whoever runs the scheduler).
 //
 //go:norace
-func Wait(what string, can func() bool) {
+func Wait(what string, can Waiter) {
 	x := X
 	if x == nil || x.aborting {
 		return
@@ -356,6 +380,18 @@ func Release(what string) {
 		return
 	}
 	Sched(what)
+}
+
+// Stamp returns a strictly increasing logical time (call/return stamps of histories).
+//
+//go:norace
+func Stamp() int {
+	x := X
+	if x == nil {
+		return 0
+	}
+	x.stamp++
+	return x.stamp
 }
 
 // Aborting reports that the execution is being torn down: shims must do nothing.
@@ -391,6 +427,26 @@ func GoNamed(name string, daemon bool, f func()) {
 	}
 	x.wg.Add(1)
 	go x.run(t, f) // a real go statement: parent happens-before child, as in the program under test
+}
+
+// MarkSpawnedSinceDaemon marks every thread created since thread count n as a daemon
+// (library goroutines such as the cache janitor, which the harness did not start itself).
+//
+//go:norace
+func MarkSpawnedSinceDaemon(n int) {
+	if x := X; x != nil {
+		for i := n; i < x.nthr; i++ {
+			x.threads[i].Daemon = true
+		}
+	}
+}
+
+//go:norace
+func ThreadCount() int {
+	if x := X; x != nil {
+		return x.nthr
+	}
+	return 0
 }
 
 // SetDaemon marks the calling thread as a daemon (expected to stay parked at the end).
@@ -448,7 +504,7 @@ func Run(prefix []int, horizon int, quick bool, body func()) *Exec {
 	x.ntrace = 0
 	x.prefix, x.Horizon, x.QuickMode = prefix, horizon, quick
 	x.done = make(chan struct{}, 1)
-	x.objSeq = 0
+	x.objSeq, x.stamp = 0, 0
 	X = x
 	t := &x.threads[0]
 	*t = Thread{ID: 0, Name: "main", wake: make(chan struct{}, 1), status: 1}
